@@ -344,7 +344,8 @@ type c40Prog struct {
 
 	rtpTracks    []*TrackLocalStaticRTP
 	sampleTracks []*TrackLocalStaticSample
-	used         [2][]atomic.Bool // per pc, per pooled track (rtp tracks first): already handed to AddTrack/FromTrack
+	used         [2][]atomic.Int32 // per pc, per pooled track (rtp tracks first): how often it was handed to AddTrack/FromTrack
+	perTrack     int32             // how often one pooled track may be attached to one pc (2 in odd programs: one track, several bindings)
 	kindBudget   [2]atomic.Int32  // remaining AddTransceiverFromKind per pc
 	dcBudget     [2]atomic.Int32
 
@@ -427,7 +428,7 @@ func (p *c40Prog) do(op c40Op, seq *uint16) { //nolint:cyclop,gocognit
 	switch k {
 	case c40AddTrack, c40AddTransceiverFromTrack:
 		tr, idx := p.track(op.Arg)
-		if p.used[op.PC][idx].Swap(true) {
+		if p.used[op.PC][idx].Add(1) > p.perTrack {
 			// pooled track already attached to this pc: degrade to a write on it (keeps the SDP bounded)
 			if idx < len(p.rtpTracks) {
 				k = c40WriteRTP
@@ -781,15 +782,19 @@ func c40RunProgram(spec *c40Spec, slot int) *c40Result { //nolint:cyclop
 	}
 	nTracks := spec.NRTP + spec.NSample
 	for i := range p.used {
-		p.used[i] = make([]atomic.Bool, nTracks)
+		p.used[i] = make([]atomic.Int32, nTracks)
 		p.kindBudget[i].Store(4)
 		p.dcBudget[i].Store(10)
 	}
-	// media present from round 1 in some programs (sequential set-up, still only listed calls)
+	p.perTrack = 1 + int32(spec.Case%2) //nolint:gosec
+	// media present from round 1 in some programs (sequential set-up, still only listed calls); in odd programs the
+	// same track is added twice, so that it has several bindings once negotiated (fan-out under concurrent Unbind)
 	for i := 0; i < spec.PreAdd; i++ {
 		tr, idx := p.track(i * 2)
-		if fo := spec.FirstOfferer; !p.used[fo][idx].Swap(true) {
-			_, _ = p.pcs[fo].AddTrack(tr)
+		for rep := int32(0); rep < p.perTrack; rep++ {
+			if fo := spec.FirstOfferer; p.used[fo][idx].Add(1) <= p.perTrack {
+				_, _ = p.pcs[fo].AddTrack(tr)
+			}
 		}
 	}
 
